@@ -1,11 +1,26 @@
 package s0396
 
+type G2 struct {
+	F3x2x0 float64
+	F3x2x1 bool
+}
+
 type G1 struct {
-	F1x0 []int64
-	F1x1 uint32
+	F3x0 uint64
+	F3x1 *float32
+	F3x2 []G2
+}
+
+type G3 struct {
+	F4x0 string
+	F4x1 int32
+	F4x2 *int64
 }
 
 type T struct {
-	F0 *int32
-	F1 *G1
+	F0 int32
+	F1 int64
+	F2 *uint32
+	F3 *G1
+	F4 []G3
 }
